@@ -77,6 +77,17 @@ pub fn c01(opts: &Opts) -> Report {
                 ops = match ctx.rng.below(3) { 0 => vec![rep], 1 => vec![Op::Split(" ".into(), Range::Range(None, None, false)), Op::Map(vec![rep]), Op::Join(" ".into())], _ => vec![rep, Op::Upper] };
                 ctx.rep.bump("literal_pattern_dollar_replacement");
             }
+            if i % 60 == 26 {
+                // pure-ASCII texts wrapped in every ASCII white-space character (VT and FF included), default trim on each
+                // side, directly and under map (no random choice: the case index selects the shape)
+                let k = (i / 60) as usize;
+                let ws = ['\u{b}', '\u{c}', ' ', '\t', '\n', '\r'];
+                let (l, r) = (ws[k % 6], ws[(k / 6) % 6]);
+                let dir = [TDir::Both, TDir::Left, TDir::Right][(k / 36) % 3];
+                input = format!("{l} {l}hello world{r} {r}");
+                ops = if k % 2 == 0 { vec![Op::Trim(String::new(), dir)] } else { input = format!("{input},{l}x{r}"); vec![Op::Split(",".into(), Range::Range(None, None, false)), Op::Map(vec![Op::Trim(String::new(), dir)]), Op::Join("|".into())] };
+                ctx.rep.bump("ascii_whitespace_wrapped_trim");
+            }
             let shorthand = i % 12 == 9;
             if shorthand {
                 // the first operation written in the documented shorthand ({N}, {A..B}, {..=B}, ...): every one of the ten
@@ -471,6 +482,36 @@ pub fn c09(opts: &Opts) -> Report {
                         viol(ctx, format!("C09: a {}-byte text: split|join:+ gives {} bytes, split alone gives {} bytes", xin.len(), got.show().len(), g2.show().len()), vec![("template", "{split:,:..|join:+}".into()), ("input_description", format!("'ab,cd,' + 'z' up to {len} bytes")), ("theorem", "C09_join_split_is_replace".into())]);
                         return;
                     }
+                }
+            }
+            if i % 40 == 27 {
+                // line-structured texts on both sides of the cache limits, split on the line terminator: LF and CRLF endings,
+                // with and without a final terminator, blank lines inside (no random choice: the case index selects the shape)
+                let k = (i / 40) as usize;
+                let size = [200usize, 9_990, 10_001, 12_000, 70_000][k % 5];
+                let (eol, sp) = [("\n", "\n"), ("\r\n", "\n"), ("\r\n", "\r\n"), ("\n", "\n")][(k / 5) % 4];
+                let final_eol = (k / 20) % 2 == 0;
+                let mut xin = String::new(); let mut n = 0usize;
+                while xin.len() < size { xin.push_str(&format!("line {n}")); if n % 7 == 3 { xin.push_str(eol); } xin.push_str(eol); n += 1; }
+                if !final_eol { xin.push_str("end"); }
+                for j in [";", ""] {
+                    let ops = vec![Op::Split(sp.to_string(), full.clone()), Op::Join(j.to_string())];
+                    let text = print_block(&ops);
+                    let got = real::parse_format(&text, &xin);
+                    ctx.rep.bump("line_structured_texts");
+                    let want = Out::Ok(xin.replace(sp, j));
+                    if got != want {
+                        viol(ctx, format!("C09: {text} on a {}-byte text of lines ending in {:?}{}: {} bytes back, plain replacement gives {}", xin.len(), eol, if final_eol { " (final terminator present)" } else { "" }, got.show().len(), want.show().len()),
+                             vec![("template", text.clone()), ("input", xin.clone()), ("observed", got.show()), ("expected", want.show()), ("theorem", "C09_join_split_is_replace".into())]);
+                        return;
+                    }
+                }
+                let one = print_block(&[Op::Split(sp.to_string(), full.clone())]);
+                let got = real::parse_format(&one, &xin);
+                if got != Out::Ok(xin.clone()) {
+                    viol(ctx, format!("C09: {one} on a {}-byte text of lines ending in {:?}: the implicit join does not restore the text ({} bytes back)", xin.len(), eol, got.show().len()),
+                         vec![("template", one.clone()), ("input", xin.clone()), ("observed", got.show()), ("expected", xin.clone()), ("theorem", "C09_join_split_id".into())]);
+                    return;
                 }
             }
             if i % 40 == 33 {
